@@ -411,6 +411,9 @@ func (s *sink) writeLocked(buf []byte, ap netip.AddrPort) (error, bool) {
 			if enc, err := r2.Encode(b, fs.fl); err == nil {
 				w.deliverLocked(enc, r.Tag, v.TTL)
 				eager = true
+				for c := 1; c <= r.Dup; c++ { // duplicates of an eagerly handled reply arrive later, as usual
+					w.after(time.Duration(int64(c)*r.DupUs)*time.Microsecond, enc, r.Tag, v.TTL)
+				}
 			}
 			continue
 		}
